@@ -5,6 +5,9 @@ import (
 	"encoding/binary"
 	"errors"
 	"io"
+	"math"
+	"math/bits"
+	"unsafe"
 
 	"github.com/arnodel/golua/code"
 )
@@ -211,18 +214,27 @@ func (r *breader) readCode(c *Code) {
 		&c.name,
 		&sz,
 	)
+	if !r.checkSize(sz, 4, 4) {
+		return
+	}
 	c.code = make([]code.Opcode, sz)
 	r.read(
-		4*uint64(sz)+8,
+		8,
 		c.code,
 		&sz,
 	)
+	if !r.checkSize(sz, 4, 4) {
+		return
+	}
 	c.lines = make([]int32, sz)
 	r.read(
-		4*uint64(sz)+8,
+		8,
 		c.lines,
 		&sz,
 	)
+	if !r.checkSize(sz, 1, uint64(unsafe.Sizeof(Value{}))) {
+		return
+	}
 	c.consts = make([]Value, sz)
 	for i := range c.consts {
 		c.consts[i] = r.readConst()
@@ -234,10 +246,44 @@ func (r *breader) readCode(c *Code) {
 		&c.CellCount,
 		&sz,
 	)
+	if r.err == nil && (c.UpvalueCount < 0 || c.RegCount < 0 || c.CellCount < 0) {
+		r.err = errInvalidSize
+	}
+	if !r.checkSize(sz, 8, uint64(unsafe.Sizeof(""))) {
+		return
+	}
 	c.UpNames = make([]string, sz)
 	for i := range c.UpNames {
 		c.UpNames[i] = r.readString()
 	}
+}
+
+// checkSize validates the number n of items about to be read, each of which
+// takes at least minBytes bytes of input and itemSize bytes of memory, and
+// consumes the budget for them.  It must be called before allocating room for
+// the items: n comes from the input, which can be any string a program made up.
+func (r *breader) checkSize(n int64, minBytes uint64, itemSize uint64) bool {
+	if r.err != nil {
+		return false
+	}
+	if n < 0 {
+		r.err = errInvalidSize
+		return false
+	}
+	hi, sz := bits.Mul64(uint64(n), itemSize)
+	if hi != 0 {
+		sz = math.MaxUint64
+	}
+	r.consumeBudget(sz)
+	if l, ok := r.r.(interface{ Len() int }); ok && uint64(n) > uint64(l.Len())/minBytes {
+		r.err = io.ErrUnexpectedEOF
+		return false
+	}
+	if hi != 0 {
+		r.err = errInvalidSize
+		return false
+	}
+	return true
 }
 
 func (r *breader) read(sz uint64, xs ...interface{}) {
@@ -264,10 +310,9 @@ func (r *breader) readString() (s string) {
 	}
 	var sl int64
 	r.read(8, &sl)
-	if r.err != nil {
+	if !r.checkSize(sl, 1, 1) {
 		return
 	}
-	r.consumeBudget(uint64(sl))
 	b := make([]byte, sl)
 	_, r.err = r.r.Read(b)
 	if r.err == nil {
@@ -287,3 +332,4 @@ func (r *breader) consumeBudget(amount uint64) {
 }
 
 var errInvalidValueType = errors.New("Invalid value type")
+var errInvalidSize = errors.New("Invalid size")
